@@ -108,7 +108,7 @@ func oblServes(o *Obligation, fc *FuncContract, id string) bool {
 		}
 		return false
 	}
-	if id == "C06" || id == "C14" || id == "C05" {
+	if id == "C06" || id == "C14" || id == "C05" || id == "C08" {
 		// structural properties: only their own labelled obligations (the
 		// arithmetic contracts of the same function belong to other properties)
 		return false
